@@ -1984,8 +1984,11 @@ class FileBuilder:
                 FileBuilder._try_to_remove_file(filename)
         FileBuilder._remove_empty_dirs(list(dirs_to_remove))
 
-        FileBuilder._create_dirs(self._old_cache.created_dirs())
+        # Restore the files before recreating the directories from the previous
+        # build. A directory from the previous build might have been replaced
+        # externally with a regular file that we moved out of the way.
         self._backups.restore_all()
+        FileBuilder._create_dirs(self._old_cache.created_dirs())
         logger.info('Rolled back build operation')
 
     def _build(self, cache_filename, func, args, kwargs):
